@@ -136,13 +136,15 @@ def Req.ok (env : Env) (msgType : MsgType) (signers : List Addr) : Req → Bool
     requiredCovered env msgType signers req && rolesCovered env msgType signers avail roles
   | .addrs required => withoutPartiesOk env msgType required signers
 
-/-- "Writing or Deleting a Scope" (write; scopes without value owner). -/
+/-- "Writing or Deleting a Scope" (write; scopes without value owner).  Without rollup a write
+that changes nothing (`Scope.Equals`: same owners up to order, same other fields) asks for no
+signature. -/
 def writeScopeReq (existing : Option Scope) (proposed : Scope) (specRoles : List Role) : Req :=
   match existing with
   | none => .addrs []
   | some ex =>
     if ex.rollup then .parties ex.owners ex.owners specRoles
-    else if ex = proposed then .addrs [] else .addrs (addresses ex.owners)
+    else if ex.equals proposed then .addrs [] else .addrs (addresses ex.owners)
 
 def deleteScopeReq (scope : Scope) (specRoles : Option (List Role)) : Req :=
   if scope.rollup then
@@ -167,7 +169,7 @@ def writeSessionReq (scope : Scope) (existing : Option (List Party)) (proposed :
 /-- "Writing a Record" -/
 def writeRecordReq (scope : Scope) (session : List Party) (oldSession : Option (List Party))
     (specRoles : List Role) : Req :=
-  let old := match oldSession with | some os => os | none => []
+  let old := oldSession.getD []
   if scope.rollup then .parties (scope.owners ++ session ++ old) session specRoles
   else .addrs (addresses session ++ addresses old)
 
